@@ -207,3 +207,26 @@ def lro_api():
     fb.method(s, "RawOp", "Req", OP, http=("post", "/v1/{name=books/*}:raw", "*"))
     fb.method(s, "GetBook", "Req", "Book", http=("get", "/v1/{name=books/*}"))
     return [idx, fb]
+
+
+def samples_api():
+    fb = gen.FileBuilder("google/example/sm/v1/library.proto", "google.example.sm.v1")
+    fb.enum("Kind", ["KIND_UNSPECIFIED", "HARD"])
+    fb.message("Binding", [("kind", "string", {"required": True}), ("glue", "enum:Kind", {"required": True})])
+    fb.message("Cover", [("binding", "msg:Binding", {"required": True}), ("color", "string")])
+    fb.message("Book", [("name", "string"), ("cover", "msg:Cover", {"required": True}), ("pages", "int32", {"required": True})])
+    fb.message("CreateBookRequest", [("parent", "string", {"required": True}), ("book", "msg:Book", {"required": True})])
+    fb.message("GetBookRequest", [("name", "string", {"required": True})])
+    fb.message("ListBooksRequest", [("parent", "string", {"required": True}), ("page_size", "int32"), ("page_token", "string")])
+    fb.message("ListBooksResponse", [("books", "msg:Book", {"repeated": True}), ("next_page_token", "string")])
+    fb.message("Meta", [("p", "int32")])
+    s = fb.service("Library")
+    fb.method(s, "CreateBook", "CreateBookRequest", "Book", http=("post", "/v1/{parent=shelves/*}/books", "book"))
+    fb.method(s, "GetBook", "GetBookRequest", "Book", http=("get", "/v1/{name=shelves/*/books/*}"))
+    fb.method(s, "ListBooks", "ListBooksRequest", "ListBooksResponse", http=("get", "/v1/{parent=shelves/*}/books"))
+    fb.method(s, "DeleteBook", "GetBookRequest", "google.protobuf.Empty", http=("delete", "/v1/{name=shelves/*/books/*}"))
+    fb.method(s, "WriteBook", "GetBookRequest", "google.longrunning.Operation",
+              http=("post", "/v1/{name=shelves/*/books/*}:write", "*"), lro=("Book", "Meta"))
+    fb.method(s, "StreamBooks", "GetBookRequest", "Book", sstream=True)
+    fb.method(s, "Chat", "GetBookRequest", "Book", cstream=True, sstream=True)
+    return [fb]
